@@ -13,6 +13,8 @@ pub struct IndexDump {
 pub trait DynModel {
     // ---- public generated API
     fn new_el(&mut self, sort: usize) -> u32;
+    /// `new_<member type>(parent)` of theories whose model declaration has a member type
+    fn new_member(&mut self, sort: usize, parent: u32) -> u32;
     fn new_enum(&mut self, ctor: usize, args: &[u32]) -> u32;
     fn insert(&mut self, rel: usize, t: &[u32]);
     /// None when the generated API has no define_ function for this relation
